@@ -5,7 +5,8 @@ CONSTANTS
   ChkOutcomes <- OkPerm
   MaxCrashes = 1
   MaxRuns = 2
-  Tolerated <- KnownRecovery
+  Tolerated <- KnownRecoveryAny
+  FnOut = FALSE
   Gen = "off"
 PROPERTIES Terminates
 CHECK_DEADLOCK TRUE
